@@ -137,6 +137,9 @@ class LinReg(Regr):
     def liesel_dist(self, eta):
         return lsl.Dist(tfd.Normal, loc=eta, scale=np.float32(1.0))
 
+    def fisher_w(self, eta):
+        return jnp.ones_like(eta)
+
 
 class Poisson(Regr):
     name = "poisson"
@@ -154,6 +157,9 @@ class Poisson(Regr):
     def liesel_dist(self, eta):
         return lsl.Dist(tfd.Poisson, log_rate=eta)
 
+    def fisher_w(self, eta):
+        return jnp.exp(eta)
+
 
 class Logistic(Regr):
     name = "logistic"
@@ -170,6 +176,10 @@ class Logistic(Regr):
 
     def liesel_dist(self, eta):
         return lsl.Dist(tfd.Bernoulli, logits=eta)
+
+    def fisher_w(self, eta):
+        p = jax.nn.sigmoid(eta)
+        return p * (1 - p)
 
 
 class BVN(Family):
@@ -254,13 +264,15 @@ def gen():
 
     @st.composite
     def g(draw):
-        fam = draw(st.sampled_from(sorted(FAMILIES) + ["bvn", "normal_ms"]))
+        fam = draw(st.sampled_from(sorted(FAMILIES) + ["bvn", "normal_ms", "poisson", "logistic"]))
         blocks = list(FAMILIES[fam].blocks)
         joint = draw(st.integers(0, 3)) == 0 if len(blocks) > 1 else True          # mostly separate blocks: sequences of kernels
         groups = [blocks] if joint else [[b] for b in draw(st.permutations(blocks))]
         kernels = []
         for grp in groups:
             kinds = list(GRADIENT) if fam != "gamma_prec" else ["rw", "rw", "mh", "iwls"]     # natural-scale sampling of a bounded parameter
+            if fam in ("linreg", "poisson", "logistic"):
+                kinds += ["iwls_fisher", "iwls_fisher"]
             if fam == "bvn" and len(grp) == 1:
                 kinds += ["gibbs", "gibbs", "gibbs"]
             kernels.append({"keys": list(grp), "kind": draw(st.sampled_from(kinds)), "step": draw(st.sampled_from([0.1, 0.2, 0.4, 0.8, 1.5])),
@@ -280,6 +292,16 @@ def make_kernel(k, fam, keymap, model_iface, getter):
         return gs.RWKernel(keys, initial_step_size=s)
     if kind == "iwls":
         return gs.IWLSKernel(keys, initial_step_size=min(s * 1.5, 1.5))
+    if kind == "iwls_fisher":
+        # user-supplied information matrix (expected Fisher information + prior precision): depends on the sampled block for Poisson / logistic
+        Xj = jnp.asarray(fam.X, dtype=jnp.float32)
+
+        def chol_info_fn(state):
+            beta = getter(state, "beta")
+            w = fam.fisher_w(Xj @ beta)
+            return jnp.linalg.cholesky(Xj.T @ (w[:, None] * Xj) + jnp.eye(2, dtype=jnp.float32) / fam.s0 ** 2)
+
+        return gs.IWLSKernel(keys, chol_info_fn=chol_info_fn, initial_step_size=min(s * 1.5, 1.5))
     if kind in ("nuts", "hmc"):
         imm = jnp.full((dim,), k["imm"], dtype=jnp.float32) if not k["dense"] else jnp.eye(dim, dtype=jnp.float32) * k["imm"] + 0.1 * (jnp.ones((dim, dim)) - jnp.eye(dim))
         if kind == "nuts":
@@ -405,6 +427,6 @@ def oracle(c):
 
 
 SUBS = [
-    Sub("invariance", oracle, gen=gen, n={"quick": 48, "thorough": 800}, shrink={"quick": False, "thorough": False}, min_per_shard=3,
+    Sub("invariance", oracle, gen=gen, n={"quick": 80, "thorough": 1200}, shrink={"quick": False, "thorough": False}, min_per_shard=5,
         what="exact-start chains from joint draws; KS + paired-drift tests of PIT statistics after K transitions"),
 ]
